@@ -10,5 +10,11 @@ else
   "$PY" -m pip install --no-index --find-links /opt/veriftools/wheels --target "$HERE/.deps" hypothesis || exit 1
 fi
 PYTHONPATH="$HERE:$HERE/.deps" "$PY" -c "import hypothesis; print('hypothesis', hypothesis.__version__)" || exit 1
+# optional: the coverage-guided arm of C02/C06/C08/C10 (pbt/fuzz.py) needs atheris; the checks skip that part (and say so
+# in their evidence) when it cannot be installed
+if ! PYTHONPATH="$HERE/.deps" "$PY" -c "import atheris" 2>/dev/null; then
+  "$PY" -m pip install --no-index --find-links /opt/veriftools/wheels --target "$HERE/.deps" atheris >/dev/null 2>&1 \
+    && echo "setup: atheris installed into $HERE/.deps" || echo "setup: atheris not available, coverage-guided parts will be skipped"
+fi
 mkdir -p "$HERE/evidence" "$HERE/out"
 exit 0
